@@ -220,6 +220,8 @@ class DirectCollocation(SamplingMethod):
                     if stage.nz:
                         opti.subject_to(0 == res["alg"], scale = scale_z)
                     for c, meta, args in stage._constraints["integrator_roots"]:
+                        # A collocation time that coincides with tf (last Radau point of the last interval) is the last point of this grid
+                        if not args["include_last"] and k==self.N-1 and i==self.M-1 and j==self.degree-1 and self.tau[-1]==1: continue
                         opti.subject_to(self.eval_at_integrator_root(stage, c, k, i, j), scale=args["scale"], meta=meta)
 
                 # Continuity constraints
